@@ -160,6 +160,7 @@ def run(fx, tier):
     if n_cw < 5:
         raise AnalysisBroken('only %d writes to the configuration members of mqtt_ctx found' % n_cw)
     config_copy_rule(fx, v, 'C10')
+    ctor_use_after_move_rule(fx, v, 'C10')
     # ... and the broker list: clone_endpoints → clone_servers → _servers = other._servers
     n_clone = 0
     for f in fx.fns:
@@ -504,3 +505,47 @@ def config_copy_rule(fx, v, prop='C10'):
                     key='%s:R-FLOW:%s-copy' % (prop, f.cls), where=f.file)
     if n_copy == 0:
         raise AnalysisBroken('mqtt_ctx copy constructor not found')
+
+
+def ctor_use_after_move_rule(fx, v, prop='C10'):
+    """what the user configured reaches the CONNECT only if the objects that carry it are built from the arguments and not from
+    their moved-from remains: in every constructor of the library, a by-value / rvalue parameter that a member initialiser
+    moves or forwards away is not read by a LATER initialiser (initialisation order = declaration order of the members, which
+    is the order the extractor records) - e.g. any_authenticator(Authenticator&& a): _method(a.method()) must come before
+    _auth_fun(new auth_fun(std::forward<Authenticator>(a)))."""
+    n = 0
+    seen = set()
+    for f in fx.fns:
+        if not f.d.get('ctor') or not f.path_file().startswith('boost/mqtt5/'):
+            continue
+        key = (f.path_file(), f.d.get('f'), f.inst())
+        if key in seen:
+            continue
+        seen.add(key)
+        ptype = {p_['n']: (p_.get('t') or '') for p_ in f.params}
+        moved = {}
+        bad = None
+        n_moves = 0
+        for k, it in enumerate(f.d.get('inits', [])):
+            init = it.get('init') if isinstance(it.get('init'), dict) else {}
+            uses = [m.get('n') for m in Expr.walk(init) if m.get('k') == 'ref' and m.get('dk') == 'param']
+            for u in uses:
+                if u in moved and moved[u] < k:
+                    bad = 'parameter `%s` is read by the initialiser of %s after the initialiser of %s moved it away' % (
+                        u, it.get('field') or it.get('base'), (f.d['inits'][moved[u]].get('field') or f.d['inits'][moved[u]].get('base')))
+            for m in Expr.walk(init):
+                if m.get('k') == 'move' and isinstance(m.get('e'), dict) and m['e'].get('dk') == 'param':
+                    pn = m['e'].get('n')
+                    t = ptype.get(pn, '')
+                    if t.endswith('&&') or '&' not in t:            # by value or rvalue reference: really moved from
+                        moved.setdefault(pn, k)
+                        n_moves += 1
+        if n_moves == 0:
+            continue
+        n += 1
+        v.saw(f)
+        v.check(bad is None, 'R-OWN', '%s::%s@%s%s [%s]:initialiser-order' % (f.cls, f.cls, (f.d.get('f') or '').split(':')[-1], f.inst()[:20], f.tu),
+                'no parameter is read after an earlier member initialiser moved/forwarded it away' if bad is None else bad,
+                key=prop + ':R-OWN:%s:ctor-use-after-move' % f.cls, where=f.d.get('f'))
+    if n < 10 and not v.violations:
+        raise AnalysisBroken('constructors that move a parameter into a member: only %d found' % n)
